@@ -93,6 +93,24 @@ def has_unseeded_random(model: onnx.ModelProto) -> bool:
     return walk(model.graph) or any(walk(f) for f in model.functions)
 
 
+def _const_value(n: onnx.NodeProto) -> Optional[np.ndarray]:
+    """value of a standard-domain Constant node (None for anything else / unsupported forms)"""
+    if n.op_type != "Constant" or n.domain != "":
+        return None
+    for a in n.attribute:
+        if a.name == "value":
+            return numpy_helper.to_array(a.t)
+        if a.name == "value_int":
+            return np.asarray(a.i, dtype=np.int64)
+        if a.name == "value_float":
+            return np.asarray(a.f, dtype=np.float32)
+        if a.name == "value_ints":
+            return np.asarray(list(a.ints), dtype=np.int64)
+        if a.name == "value_floats":
+            return np.asarray(list(a.floats), dtype=np.float32)
+    return None
+
+
 class Termifier:
     """Shared between the before and the after graph of one pair (ids must agree)."""
 
@@ -103,44 +121,64 @@ class Termifier:
 
     # ---- nested bodies
     def _body(self, g: onnx.GraphProto, outer_defined: set[str]) -> tuple[str, list[str]]:
-        """canonical text of a body graph + ordered list of captured outer names."""
-        local: dict[str, str] = {}
+        """canonical text of a body graph + ordered list of captured outer names.
+
+        The text is a hash-consed rendering of the body's OUTPUT expressions (body inputs by
+        position with their declared types, constants by content whether initializer or Constant
+        node, captured outer values by order of first use): nodes the outputs do not depend on,
+        names and node order do not enter it.  Bodies with unseeded random operators have no
+        canonical text (the pair is then executed instead of certified)."""
         caps: list[str] = []
-
-        def nm(n: str, define: bool = False) -> str:
-            if n == "":
-                return "_"
-            if n in local:
-                return local[n]
-            if define:
-                local[n] = f"v{len(local)}"
-                return local[n]
-            if n not in caps:
-                caps.append(n)
-            return f"@cap{caps.index(n)}"
-
-        parts = []
-        for i in g.input:
-            parts.append("in:" + nm(i.name, True) + ":" + json.dumps(_ann_of_type(i.type)))
-        for init in g.initializer:
-            parts.append("init:" + nm(init.name, True) + ":" + _digest(numpy_helper.to_array(init)))
+        memo: dict[str, str] = {}
+        in_idx = {i.name: k for k, i in enumerate(g.input)}
+        inits = {t.name: t for t in g.initializer}
+        producer: dict[str, tuple[onnx.NodeProto, int]] = {}
         for n in g.node:
-            ins = [nm(x) for x in n.input]
-            sub = []
-            for a in sorted(n.attribute, key=lambda a: a.name):
-                if a.type in (onnx.AttributeProto.GRAPH, onnx.AttributeProto.GRAPHS):
-                    gs = [a.g] if a.type == onnx.AttributeProto.GRAPH else list(a.graphs)
-                    for sg in gs:
-                        txt, c2 = self._body(sg, set())
-                        # captures of the inner body that are not local here are captures of ours
-                        c2m = [nm(c) for c in c2]
-                        sub.append(f"{a.name}=G<{txt}|{c2m}>")
+            for k, o in enumerate(n.output):
+                if o:
+                    producer[o] = (n, k)
+
+        def h(name: str) -> str:
+            if name == "":
+                return "_"
+            if name in memo:
+                return memo[name]
+            if name in producer:
+                n, k = producer[name]
+                cv = _const_value(n)
+                if cv is not None:
+                    r = "C" + _digest(cv)
                 else:
-                    sub.append(_attr_canon(a, lambda g_: "?"))
-            outs = [nm(x, True) for x in n.output]
-            parts.append(f"{n.domain}::{n.op_type}({','.join(ins)})[{';'.join(sub)}]->{','.join(outs)}")
-        parts.append("out:" + ",".join(nm(o.name) for o in g.output))
-        return hashlib.sha1("\n".join(parts).encode()).hexdigest()[:16], caps
+                    if n.op_type in NONDETERMINISTIC and not any(a.name == "seed" for a in n.attribute):
+                        raise TooBig()
+                    args = [h(x) for x in n.input]
+                    sub = []
+                    for a in sorted(n.attribute, key=lambda a: a.name):
+                        if a.type in (onnx.AttributeProto.GRAPH, onnx.AttributeProto.GRAPHS):
+                            gs = [a.g] if a.type == onnx.AttributeProto.GRAPH else list(a.graphs)
+                            for sg in gs:
+                                txt, c2 = self._body(sg, set())
+                                # captures of the inner body are values of this scope (or captures of ours)
+                                sub.append(f"{a.name}=G<{txt}|{[h(c) for c in c2]}>")
+                        else:
+                            sub.append(_attr_canon(a, lambda g_: "?"))
+                    r = hashlib.sha1(
+                        f"{n.domain}::{n.op_type}#{k}({','.join(args)})[{';'.join(sub)}]".encode()).hexdigest()[:20]
+            elif name in in_idx:
+                r = f"in{in_idx[name]}"
+            elif name in inits:
+                r = "C" + _digest(numpy_helper.to_array(inits[name]))
+            else:
+                if name not in caps:
+                    caps.append(name)
+                r = f"@cap{caps.index(name)}"
+            memo[name] = r
+            return r
+
+        outs = [h(o.name) for o in g.output]
+        sig = [json.dumps(_ann_of_type(i.type)) for i in g.input]
+        text = hashlib.sha1(("|".join(outs) + "##" + "|".join(sig)).encode()).hexdigest()[:16]
+        return text, caps
 
     # ---- main
     def terms(self, model: onnx.ModelProto, is_before: bool, by_position: bool = False) -> list[Any]:
@@ -239,6 +277,9 @@ class Termifier:
                         extra["axes"] = sorted({x % len(rk) for x in axes})
                         ins = ins[:1]
                         skip_attrs = {"axes", "keepdims"}
+                if n.domain == "" and n.op_type == "Reshape" and \
+                        all(int(a.i) == 0 for a in n.attribute if a.name == "allowzero"):
+                    skip_attrs = {"allowzero"}       # allowzero=0 is the ONNX default
                 args = [term(i) for i in ins]
                 for a in sorted(n.attribute, key=lambda a: a.name):
                     if a.type in (onnx.AttributeProto.GRAPH, onnx.AttributeProto.GRAPHS):
